@@ -125,6 +125,9 @@ def directory_postcondition(run, P):
             return [('', ('prefix_incl', args[1][3][0]), [])]
         if base == 'new_unchecked' and isinstance(a0, tuple) and a0[0] == 'prefix_incl':
             return [('', a0, [])]
+        if base == 'checked_sub' and len(args) == 2 and isinstance(a0, Aff) and isinstance(args[1], Aff):
+            return [('checked_sub: Some', ('adt', 'std::option::Option', 1, (a0 - args[1],)), [(('cmp', 'Ge', a0, args[1]), True)]),
+                    ('checked_sub: None', ('adt', 'std::option::Option', 0, ()), [(('cmp', 'Ge', a0, args[1]), False)])]
         return None
     ex = SymExec(P.bodies, lambda n: False, summary)
     p = Path()
@@ -149,7 +152,8 @@ def directory_postcondition(run, P):
         r = q.ret
         if r == ('arg', 'self'):
             # only for the empty path
-            if not any(a == ('cmp', 'Eq', sym('len(P)'), Aff()) and t for a, t in q.assume):
+            from ..symex import entails as _ent
+            if not (any(a == ('cmp', 'Eq', sym('len(P)'), Aff()) and t for a, t in q.assume) or _ent(q.facts, Aff() - sym('len(P)'))):
                 run.violation('directory|self', f'{P.where(b)} {fn} returns the whole path although it is not known to be empty')
             continue
         if isinstance(r, tuple) and r[0] == 'item':
